@@ -387,9 +387,15 @@ def _apply(via, kspec, sigs):
     n = len(sigs[names[0]])
     coords = [(sigs["x"][i] if "x" in sigs else float(i), sigs["y"][i] if "y" in sigs else 2.0 * i,
                sigs["z"][i] if "z" in sigs else 0.0) for i in range(n)]
+    as_numpy = (n + len(names) + int(abs(sum(v for v in sigs[names[0]] if v == v)) * 3)) % 4 == 1
+    if as_numpy:
+        # the values (NaN included) held as numpy scalars, as list(array) or array[i] hand them out
+        import numpy as np
+        coords = [tuple(np.float64(c) for c in p) for p in coords]
+        M.CTX.count("values_held_as_numpy_scalars")
     tr = gen.make_track(coords)
     if "a" in sigs:
-        tr.createAnalyticalFeature("a", list(sigs["a"]))
+        tr.createAnalyticalFeature("a", [np.float64(v) for v in sigs["a"]] if as_numpy else list(sigs["a"]))
     if (n + len(names)) % 4 == 2:
         tr, _how = gen.derive(tr, (coords, names), allow=gen.DERIVE_HOWS + ["hidden_slots", "hidden_slots"])
     # kernel argument as the API takes it + the weights the oracle uses
